@@ -544,8 +544,12 @@ func (l *loopState) notifySteps() { //nolint:gocognit
 		untypedInputData, err := l.resolveExpressions(inputData, l.data)
 		if err != nil {
 			// An error here often indicates a locking issue in a step provider. This could be caused
-			// by the lock not being held when the output was marked resolved.
-			panic(fmt.Errorf("cannot resolve expressions for %s (%w)", nodeID, err))
+			// by the lock not being held when the output was marked resolved. It can also be a run-time
+			// evaluation failure (missing optional value, failing function), so report it instead of crashing.
+			l.logger.Errorf("Cannot resolve expressions for %s (%v)", nodeID, err)
+			l.recentErrors <- fmt.Errorf("cannot resolve expressions for %s (%w)", nodeID, err)
+			l.cancel()
+			return
 		}
 
 		// This switch checks to see if it's a node that needs to be run.
